@@ -483,7 +483,86 @@ class ValGen:
                 if v is not NOVALUE:
                     out.append(v)
             return out
+        if k == "enumCls":
+            # every member of the class by name and by value (also the ones a restricted field
+            # excludes), a member of another class, and a wrongly-cased name
+            for n in ENUMS[d["cls"]]:
+                out.append(n)
+                out.append({"e": [d["cls"], n]})
+            other = next(c for c in sorted(ENUMS) if c != d["cls"])
+            out += [ENUMS[other][0], {"e": [other, ENUMS[other][0]]}, d["names"][0].lower()]
+            return out
+        if k == "enumLit":
+            # values equal under == but of another type, and neighbours
+            for v in d["values"]:
+                if isinstance(v, bool):
+                    out += [int(v), fl(Fraction(int(v)))]
+                elif isinstance(v, int):
+                    out += [fl(Fraction(v)), v + 1, str(v)]
+                    if v in (0, 1):
+                        out.append(bool(v))
+                elif isinstance(v, str):
+                    out += [v + "x", v.upper(), v[:-1]]
+            return [x for i, x in enumerate(out) if x not in out[:i]]
+        if k == "boolean":
+            return [True, False, 0, 1, "True", "False", "true", fl(Fraction(1)), fl(Fraction(0))]
+        if k == "anyOf":
+            for f in d["fields"]:
+                out += self.boundary(f)[:4]
+            return out
         return out
+
+    def deep_corrupt(self, d, v, depth=0):
+        """replace ONE position inside v - walked along declaration d - by a boundary neighbour of the
+        declaration at that position (NOVALUE when there is nothing to replace)"""
+        rng = self.rng
+        k = d["k"]
+
+        def leaf():
+            cands = self.boundary(d)
+            return rng.choice(cands) if cands else NOVALUE
+
+        if isinstance(v, dict) and depth < 6 and rng.random() < 0.85:
+            for tag in ("l", "q", "t", "s", "fs"):
+                if tag in v and v[tag]:
+                    xs = list(v[tag])
+                    i = rng.randrange(len(xs))
+                    if k in ("seqOf", "setOf", "tupleOf"):
+                        sub = d["item"]
+                    elif k in ("seqPos", "tuplePos") and i < len(d["items"]):
+                        sub = d["items"][i]
+                    else:
+                        return leaf()
+                    x = self.deep_corrupt(sub, xs[i], depth + 1)
+                    if x is NOVALUE:
+                        return leaf()
+                    xs[i] = x
+                    return {tag: xs}
+            if "m" in v and v["m"] and k == "mapOf":
+                kvs = [list(kv) for kv in v["m"]]
+                i = rng.randrange(len(kvs))
+                x = self.deep_corrupt(d["val"], kvs[i][1], depth + 1)
+                if x is NOVALUE:
+                    return leaf()
+                kvs[i][1] = x
+                return {"m": kvs}
+            if k == "struct" and (("o" in v and v["o"][1]) or ("m" in v and v["m"])):
+                kw = [list(kv) for kv in (v["o"][1] if "o" in v else v["m"])]
+                fields = dict((n, f) for n, f in d["fields"])
+                idx = [i for i, kv in enumerate(kw) if kv[0] in fields]
+                if not idx:
+                    return leaf()
+                i = rng.choice(idx)
+                x = self.deep_corrupt(fields[kw[i][0]], kw[i][1], depth + 1)
+                if x is NOVALUE:
+                    return leaf()
+                kw[i][1] = x
+                return {"o": [v["o"][0], kw]} if "o" in v else {"m": kw}
+        if k in ("anyOf", "oneOf", "allOf") and d.get("fields"):
+            sub = rng.choice(d["fields"])
+            cands = self.boundary(sub)
+            return rng.choice(cands) if cands else NOVALUE
+        return leaf()
 
     def of_len(self, d, n):
         """a value of exactly n elements whose elements are intended to be valid"""
